@@ -1,7 +1,7 @@
 #!/venv/bin/python
 """Confirm a seeded change produced by a sub-agent and import it into /verif/seeded.
 
-usage: tools/import_seed.py <worktree> <Cnn> <n>
+usage: tools/import_seed.py <worktree> <Cnn> <n> [tag]
 Steps (all in the scratch worktree, never in /repo): clean tree -> demo passes; apply patch ->
 the 112 baseline tests still pass, demo fails; undo.  On success copies patch.diff, demo.py and
 meta.json (extended with what was run) to /verif/seeded/<Cnn>-<n>/.
@@ -15,6 +15,7 @@ import xml.etree.ElementTree as ET
 
 HERE = os.path.dirname(os.path.dirname(os.path.abspath(__file__)))
 wt, pid, n = sys.argv[1], sys.argv[2], sys.argv[3]
+tag = sys.argv[4] if len(sys.argv) > 4 else ""  # e.g. "s2-" for the second round
 sd = os.path.join(wt, "SEED", n)
 patch = os.path.join(sd, "patch.diff")
 demo = os.path.join(sd, "demo.py")
@@ -42,7 +43,7 @@ if r.returncode != 0:
     sys.exit(f"patch does not apply: {r.stderr}")
 try:
     rc1, out1 = run_demo()
-    junit = f"/tmp/fx/junit_{pid}_{n}.xml"
+    junit = f"/tmp/fx/junit_{pid}_{tag}{n}.xml"
     t = sh(f"/venv/bin/python -m pytest -q -p no:cacheprovider --timeout=900 --continue-on-collection-errors --junitxml={junit} tests", timeout=3000)
     base = set(json.load(open("/root/.vp/BASELINE.json"))["stable_pass"])
     passed = set()
@@ -56,7 +57,7 @@ ok = rc1 != 0 and not missing
 print(json.dumps({"seed": f"{pid}-{n}", "demo_clean_rc": rc0, "demo_patched_rc": rc1, "baseline_missing": missing[:5], "confirmed": ok, "demo_tail": out1[-300:]}, indent=1))
 if not ok:
     sys.exit(1)
-dst = os.path.join(HERE, "seeded", f"{pid}-{n}")
+dst = os.path.join(HERE, "seeded", f"{pid}-{tag}{n}")
 os.makedirs(dst, exist_ok=True)
 shutil.copy(patch, os.path.join(dst, "patch.diff"))
 shutil.copy(demo, os.path.join(dst, "demo.py"))
